@@ -33,6 +33,55 @@ def boundaries(res):
     return out
 
 
+def digest(obj):
+    import hashlib
+    return hashlib.sha1(json.dumps(obj, sort_keys=True).encode()).hexdigest()[:12]
+
+
+def closed_mid_include_set():
+    """CLOSED input set (independent of VERIF_SEED): Grammar sentences in which the `include sits INSIDE a
+    description - a run of tokens from the middle of the source is moved into the included file.  On this set the
+    unchanged tree has known finding D21 (the reported position can lie in the including file, before the
+    directive); its instances are listed individually, so the set has to be the same in every run."""
+    rng = random.Random(1400)
+    out = []
+    for _ in range(60):
+        ch, toks = svgen.random_derivation(rng, "source", rng.randint(2, 8))
+        s, offs = svgen.render(toks)           # token offsets of the derivation, not of a re-tokenisation
+        if len(offs) < 4:
+            continue
+        a = rng.randrange(1, len(offs) - 1)
+        b = rng.randrange(a + 1, len(offs))
+        oa, ob = offs[a], offs[b]
+        out.append({"top.sv": s[:oa] + "\n`include \"body.svh\"\n" + s[ob:], "body.svh": s[oa:ob] + "\n"})
+    return out
+
+
+def closed_fault_cases():
+    """-> (fault cases, meta) of the closed set: every token boundary x one byte (rotating)"""
+    bases = closed_mid_include_set()
+    pcases = [{"id": i, "files": f, "calls": [{"fn": "two_step_sv", "path": "top.sv", "origins_of_leaves": True}]} for i, f in enumerate(bases)]
+    pres = vlib.run_cases(pcases, tag="c14ca", limit_ms=60000)
+    fcases, meta = [], {}
+    for pc, res in zip(pcases, pres):
+        r0 = res["results"][0]
+        if r0.get("outcome") != "ok":
+            meta["base%d" % pc["id"]] = {"kind": "base-not-accepted", "outcome": r0.get("outcome"), "base": pc["files"]}
+            continue
+        for n, (path, off) in enumerate(boundaries(r0)):
+            bad = BAD[n % 3]
+            files = dict(pc["files"])
+            b = files[path].encode()
+            files[path] = {"bytes": list(b[:off] + bad.encode() + b[off:])}
+            key = digest([pc["files"], path, off, bad])
+            cid = "m" + key
+            if cid in meta:
+                continue
+            fcases.append({"id": cid, "files": files, "calls": [{"fn": "parse_sv", "path": "top.sv", "no_tree": True}]})
+            meta[cid] = {"kind": "badbyte", "file": path, "off": off, "base": pc["files"], "byte": repr(bad), "closed": True, "key": key}
+    return fcases, meta
+
+
 def run(tier, seed):
     v = vlib.Verdict("C14", tier, seed)
     vlib.build_harness()
@@ -87,7 +136,18 @@ def run(tier, seed):
                 nid += 1
                 fcases.append({"id": "d%d" % nid, "files": {"top.sv": src[:o] + src[o + len(t):]}, "calls": [{"fn": "parse_sv", "path": "top.sv", "no_tree": True}]})
                 meta["d%d" % nid] = {"kind": "delclose", "deleted": t, "at": o, "base": src}
-    vlib.log("C14: %d fault cases from %d accepted sources" % (len(fcases), len(bases)))
+    cf, cm = closed_fault_cases()
+    for k, m in cm.items():
+        if m["kind"] == "base-not-accepted":
+            v.violation("closed set: base source is not accepted: %s" % json.dumps(m["base"])[:300], m)
+    fcases += cf
+    meta.update({k: m for k, m in cm.items() if m["kind"] == "badbyte"})
+    listed = {}
+    for f in vlib.load_known()["findings"]:
+        if f["id"] == "D21" and f["status"] == "open":
+            for k in f.get("instances", []):
+                listed[k] = f
+    vlib.log("C14: %d fault cases from %d accepted sources (+ %d of the closed include-inside-a-description set)" % (len(fcases), len(bases), len(cf)))
     fres = vlib.run_cases(fcases, tag="c14b", limit_ms=60000)
     recs = []
     for fc, res in zip(fcases, fres):
@@ -99,8 +159,14 @@ def run(tier, seed):
             recs.append({"id": fc["id"], "kind": "delclose", "res": rs})
     bad, stats = vlib.tlc_validate("Api_Trace.tla", "Api_Trace.cfg", recs, tag="c14")
     v.add_tv("Api_Trace[badbyte, delclose]", stats, len(recs))
+    nk = 0
     for rid, reasons in bad.items():
-        v.violation("%s: %s" % (json.dumps(meta[rid])[:400], "; ".join(reasons)[:400]), meta[rid])
+        m = meta[rid]
+        if m.get("closed") and m["key"] in listed and any("names another file" in x for x in reasons):
+            nk += 1
+            v.known_finding("D21", listed[m["key"]]["title"], "fault in %s at %d of %s: %s" % (m["file"], m["off"], json.dumps(m["base"])[:160], "; ".join(reasons)[:120]), ["C14"])
+            continue
+        v.violation("%s: %s" % (json.dumps(m)[:400], "; ".join(reasons)[:400]), m)
     # preprocessor-level lexical faults
     texts = []
     ex, r = vlib.tlc_export("MC_PpLex.tla", "MC_PpLex_gen4.cfg", workers=4)
